@@ -62,6 +62,7 @@ def check_transition(conf, hist, op, G, M, out, exp):
 
 class Spec(engine.Spec):
     prop = PROP
+    pure_queries = True
 
     def on_transition(self, conf, hist, op, G, M, out, exp):
         return check_transition(conf, hist, op, G, M, out, exp)
